@@ -14,11 +14,11 @@ CHECKS = {
  "C02": seq("all (writer cfg, reader cfg) pairs x all operation sequences within the bound: the dump before Close is compared with the dump after Open on copies reopened under every reader configuration, twice; plus an exhaustive end-offset sweep (every reachable file end offset within a block, 3 shapes, both I/O back-ends, append + reopen)",
             "bounds: depth 2-4, 12 configurations; quick tier sweeps a subset of the 32768 offsets, thorough all", "DESIGN.md §6 C02"),
  "C03": ("crash", "exhaustive enumeration of crash instants (after every intercepted I/O call) and of every admissible cut of unsynced file tails; recovery with the real Open compared with the prefix states allowed by the acknowledgement/durability window",
-            "all workloads of length 1..d x 3 sync strategies; crash image after every I/O event of the last operation; process death and power loss (every cut length of every unsynced tail, singly and in pairs); recovered dump must equal S_j in the window; second Open must agree",
-            "Standard I/O; write calls atomic under process death; power loss = tail cuts, directory ops durable in order; torn-tail Open failure is known finding KF-1", "DESIGN.md §6 C03"),
+            "all workloads of length 1..d (incl. merge and adopting restart) x 3 sync strategies x both I/O back-ends, plus a block family (multi-block values, cuts next to block boundaries); crash image after every I/O event of the last operation; process death and power loss (every cut length of every unsynced tail, singly and in pairs); recovered dump must equal S_j in the acknowledgement / promised-durability window; second Open must agree; the recovered database is driven on under the reference-map oracle",
+            "write calls atomic under process death; power loss = cuts of unsynced tails (Standard I/O: shorter file, MMap: zero-fill), directory ops durable in order; a restart takes >= 2 ms of the harness-owned clock; recovered databases are driven on after recovery (continuation)", "DESIGN.md §6 C03"),
  "C04": ("crash", "exhaustive enumeration of batch bodies x crash instants inside and after Commit x tail cuts; recovered state must equal a whole-batch state S_j; plus live/restart/merge visibility",
             "pre-history x one batch (all bodies up to the bound, Sync false/true) x post-history; crash image after every I/O event from the batch on, process death and power loss; exactly-S_j oracle (a half-applied batch equals no S_j); visibility after Commit, restarts, merge+adoption",
-            "Standard I/O; bodies <= 2-3 staged ops; torn-tail Open failure is known finding KF-2", "DESIGN.md §6 C04"),
+            "Standard I/O; bodies <= 2-3 staged ops; crash model of C03; durability lower bound also from what Commit of a Sync batch promised", "DESIGN.md §6 C04"),
  "C19": seq("all command sequences within the bound over 22 mutating commands (five types, two keys, deletion, re-creation, clock advance, restart); every reply compared with a data-type model; a probe battery of every read command after every step; battery unchanged across restart",
             "clock owned by the harness; unjudged cases (other-type commands on expired strings / emptied containers) prune the sequence", "DESIGN.md §6 C19"),
  "C05": seq("all pre-histories x all staging sequences within the bound with Batch.Get of every key after every staging step compared with a layered reference map; Commit result, reuse rejection, and the state after restart compared with the fold of the batch in issue order",
